@@ -278,3 +278,94 @@ func VerifC18TwoDeps(h *verifh.H) {
 	h.Assert(vContains(emitted, "ns0:m2"), "the previous target of the second dependency's link (same dependency dataset) is emitted :: p1="+r1+" p2="+r2+" emitted="+vJoinS(emitted))
 	h.Observe("emitted", vJoinS(emitted))
 }
+
+// VerifC18FullSyncWindow: a dependency entity changes WHILE the full sync of a
+// MultiSource job is running, after the sink took the k-th page. The full sync
+// hands its pages out as the dependency stood when each was read, so the change
+// must not be lost: every main entity connected to the changed dependency
+// entity is delivered after the change — by a later page of the same full sync
+// or by the incremental runs that follow it.
+func VerifC18FullSyncWindow(h *verifh.H) {
+	hub := server.VerifNewHub(h)
+	M, _ := hub.Dsm.CreateDataset("M", nil)
+	D, _ := hub.Dsm.CreateDataset("D", nil)
+	inverse := h.Choice("inverse", 2) == 1 // true: m -p1-> d; false: d -p1-> m
+	mk := func(id, tag, ref string) *server.Entity {
+		e := server.NewEntity(id, 0)
+		e.Properties["ns0:tag"] = tag
+		if ref != "" {
+			e.References["ns0:p1"] = ref
+		}
+		return e
+	}
+	mIDs := []string{"ns0:m1", "ns0:m2"}
+	pickM := func(name string) string { return mIDs[h.Choice(name, 2)] }
+	// initial state: both main entities; d1 exists and is linked to a main entity (so that the
+	// predicate exists in the store and the dependency dataset has a history before the full sync)
+	link0 := pickM("link0")
+	if inverse {
+		for _, m := range mIDs {
+			ref := ""
+			if m == link0 {
+				ref = "ns0:d1"
+			}
+			h.Assert(M.StoreEntities([]*server.Entity{mk(m, "m0", ref)}) == nil, "write M")
+		}
+		h.Assert(D.StoreEntities([]*server.Entity{mk("ns0:d1", "d0", "")}) == nil, "write D")
+	} else {
+		h.Assert(M.StoreEntities([]*server.Entity{mk("ns0:m1", "m0", ""), mk("ns0:m2", "m0", "")}) == nil, "write M")
+		h.Assert(D.StoreEntities([]*server.Entity{mk("ns0:d1", "d0", link0)}) == nil, "write D")
+	}
+	ms := &source.MultiSource{DatasetName: "M", Store: hub.Store, DatasetManager: hub.Dsm, Logger: hub.Env.Logger}
+	ms.Dependencies = []source.Dependency{{Dataset: "D", Joins: []source.Join{{Dataset: "M", Predicate: "ns0:p1", Inverse: inverse}}}}
+	sink := &vSink{failBatch: -1, failing: map[string]bool{}}
+	spec := PipelineSpec{source: ms, sink: sink, batchSize: 1}
+	runner := vRunner(hub, 1, 1)
+	// the change: d1 is rewritten (content, and for d -> m possibly its link) after page `at`
+	link1 := link0
+	if !inverse {
+		link1 = pickM("link1")
+	}
+	at := 1 + h.Choice("at", 2)
+	mark := -1
+	sink.killAt = at
+	sink.kill = func() {
+		mark = len(sink.delivered)
+		ref := ""
+		if !inverse {
+			ref = link1
+		}
+		h.Assert(D.StoreEntities([]*server.Entity{mk("ns0:d1", "d1", ref)}) == nil, "change D")
+	}
+	full := &FullSyncPipeline{spec}
+	jf := &job{id: "msw-job", title: "msw-job", pipeline: full, runner: runner}
+	_, err := full.sync(jf, context.Background())
+	h.Assert(err == nil, "full sync succeeds")
+	h.Assert(mark >= 0, "the change fell inside the full sync")
+	incr := &IncrementalPipeline{spec}
+	ji := &job{id: "msw-job", title: "msw-job", pipeline: incr, runner: runner}
+	last := ""
+	for r := 0; r < 6; r++ {
+		_, err := incr.sync(ji, context.Background())
+		h.Assert(err == nil, "incremental run succeeds")
+		st := &SyncJobState{}
+		_ = hub.Store.GetObject(server.JobDataIndex, "msw-job", st)
+		if st.ContinuationToken == last {
+			break
+		}
+		last = st.ContinuationToken
+	}
+	var after []string
+	if mark >= 0 {
+		for _, e := range sink.delivered[mark:] {
+			after = append(after, e.ID)
+		}
+	}
+	sort.Strings(after)
+	// connected main entities: d1's link as it is now (and, for d -> m, as it stood before)
+	h.Assert(vContains(after, link1), "a main entity connected to the dependency entity that changed during the full sync is delivered after the change :: expected="+link1+" after="+vJoinS(after))
+	if !inverse {
+		h.Assert(vContains(after, link0), "the previous target of the rewired link is delivered after the change :: expected="+link0+" after="+vJoinS(after))
+	}
+	h.Observe("after", vJoinS(after))
+}
